@@ -127,6 +127,12 @@ def run(ctx, vlib):
     rng = ctx["rng"]
     notes = []
     failing, diffs = [], []
+    if inv is None:
+        # no fresh inventory (the translator failed, or VERIF_NO_REGEN=1): the theorems were checked against the STORED
+        # coq/InvGenerated.v, which is not tied to /repo's current source - that is a broken tie, not a pass
+        diffs.append(dict(driver="inventory", case="tools/inventory.py regenerate", implementation="no inventory of the current source",
+                          model="coq/InvGenerated.v as stored", judge="TIE-BROKEN",
+                          why="the translator did not run (%s): Properties_C19 was checked against a stale generated file" % (IC.REGEN_ERROR or "VERIF_NO_REGEN=1")))
 
     # ---- (b) what the inventory says, for the report (the verdict on it is the Coq theorem)
     offenders = None
